@@ -104,7 +104,8 @@ func c19Impl(formula string, ctx *c19Ctx) (float64, string) {
 // the fly.  Written from docs/usage/math.md and the property text, not from parser.go:
 //   or/and  <  comparisons  <  + -  <  & |  <  * / % (and implied multiplication)  <  << >>  <  ^
 // equal levels associate to the left; unary operators and functions apply to the next atom;
-// a literal or group directly followed by a group multiplies.  Blanks are insignificant.
+// a literal or group directly followed by a group multiplies.  Blanks are insignificant inside
+// words and between tokens (but do not glue two operator characters together).
 
 var c19RefLevels = [][]string{
 	{"&&", "||"},
@@ -215,7 +216,11 @@ func (p *c19Ref) level(i int) float64 {
 		return p.atom(false)
 	}
 	left := p.level(i + 1)
-	for p.pos < len(p.s) {
+	for {
+		p.ws()
+		if p.pos >= len(p.s) {
+			break
+		}
 		op := p.peekAnyOp()
 		if op != "" && c19In(c19RefLevels[i], op) {
 			p.pos += len(op)
@@ -235,7 +240,14 @@ func (p *c19Ref) level(i int) float64 {
 
 func c19IsOpChar(c byte) bool { return strings.IndexByte("+-*/^%<>&|=", c) >= 0 }
 
+func (p *c19Ref) ws() {
+	for p.pos < len(p.s) && p.s[p.pos] == ' ' {
+		p.pos++
+	}
+}
+
 func (p *c19Ref) atom(afterUnary bool) float64 {
+	p.ws()
 	if p.pos >= len(p.s) {
 		p.fail("operand expected at end")
 	}
@@ -248,7 +260,14 @@ func (p *c19Ref) atom(afterUnary bool) float64 {
 		p.fail("operand expected, found )")
 	case c == '-' || c == '!':
 		if afterUnary {
-			p.fail("stacked prefix operator")
+			// only the function form `!( … )` may follow another prefix operator
+			q := p.pos + 1
+			for q < len(p.s) && p.s[q] == ' ' {
+				q++
+			}
+			if !(c == '!' && q < len(p.s) && p.s[q] == '(') {
+				p.fail("stacked prefix operator")
+			}
 		}
 		p.pos++
 		v := p.atom(true)
@@ -258,11 +277,13 @@ func (p *c19Ref) atom(afterUnary bool) float64 {
 		return c19b2f(v == 0)
 	}
 	// a run of characters up to the next operator or parenthesis
-	start := p.pos
-	for p.pos < len(p.s) && p.s[p.pos] != '(' && p.s[p.pos] != ')' && p.peekAnyOp() == "" {
+	word := ""
+	for p.pos < len(p.s) && p.s[p.pos] != '(' && p.s[p.pos] != ')' && (p.s[p.pos] == ' ' || p.peekAnyOp() == "") {
+		if p.s[p.pos] != ' ' { // blanks inside a word are insignificant
+			word += string(p.s[p.pos])
+		}
 		p.pos++
 	}
-	word := p.s[start:p.pos]
 	if word == "" {
 		p.fail("operand expected")
 	}
@@ -277,6 +298,7 @@ func (p *c19Ref) atom(afterUnary bool) float64 {
 func (p *c19Ref) group() float64 {
 	p.pos++ // (
 	v := p.level(0)
+	p.ws()
 	if p.pos >= len(p.s) || p.s[p.pos] != ')' {
 		p.fail("missing )")
 	}
@@ -322,8 +344,9 @@ func c19RefEval(formula string, ctx *c19Ctx) (v float64, rejected string) {
 			panic(e)
 		}
 	}()
-	p := &c19Ref{s: strings.ReplaceAll(formula, " ", ""), ctx: ctx}
+	p := &c19Ref{s: formula, ctx: ctx}
 	v = p.level(0)
+	p.ws()
 	if p.pos != len(p.s) {
 		p.fail("trailing text")
 	}
